@@ -24,7 +24,9 @@ def fleet_case(draw, broker):
             "dur": draw(st.sampled_from([0.0, 0.05, 0.3, 0.6, 0.9])),
             "stops": [draw(st.one_of(st.none(), st.integers(300, 9000).map(lambda ms: ms / 1000))) for _ in range(nw)],
             "restart": draw(st.booleans()), "tasks_limit": draw(st.sampled_from([1, 1000])),
-            "fail_every": draw(st.sampled_from([0, 0, 3])), "horizon": 11.0}
+            "fail_every": draw(st.sampled_from([0, 0, 3])), "horizon": 11.0,
+            # further recurring jobs created at the same instant (same time base): their slots coincide for ever
+            "twins": draw(st.sampled_from([0, 0, 1, 2]))}
     if all(x is None for x in case["stops"]):
         case["stops"][0] = 2.5
     if broker != "mem":
@@ -52,7 +54,7 @@ async def _fleet(loop, case, out: Outcome):
             if slot is None and d.defer_by is not None:
                 slot = m.parameters.timestamp + d.defer_by  # first run of Job(deferred_by=p): one period after its timestamp
             n = len(runs)
-            runs.append((vclock.secs(slot) if slot is not None else None, loop.time(), f"w{i}"))
+            runs.append((vclock.secs(slot) if slot is not None else None, loop.time(), f"w{i}", m.key.id_))
             if case["dur"]:
                 await asyncio.sleep(case["dur"])
             if case["fail_every"] and n % case["fail_every"] == 1:
@@ -90,7 +92,10 @@ async def _fleet(loop, case, out: Outcome):
     await prod.connect()
     await Queue("qr", _connection=prod).declare()
     t_enq = loop.time()
-    await Job("rec", queue="qr", id_="rec", deferred_by=timedelta(seconds=p), retries=0, _connection=prod).enqueue()
+    ids = ["rec"] + [f"twin{k}" for k in range(case.get("twins", 0))]
+    jobs = [Job("rec", queue="qr", id_=i, deferred_by=timedelta(seconds=p), retries=0, _connection=prod) for i in ids]
+    for j in jobs:
+        await j.enqueue()
     tasks = []
     # (workers of one process register their signal handlers one after the other)
     for i in range(case["workers"]):
@@ -101,9 +106,19 @@ async def _fleet(loop, case, out: Outcome):
         tasks.append(asyncio.ensure_future(run_worker(case["workers"], first + 0.2, None)))
     await asyncio.gather(*tasks)
     await asyncio.sleep(0.5)
-    places = env.probe().get("rec", [])
+    all_runs = runs
+    pr_end = env.probe()
+    for jid in ids:
+        _judge_job(out, case, jid, [(sl, t0, w) for sl, t0, w, i in all_runs if i == jid], pr_end.get(jid, []), t_enq, p)
+    runs = [(sl, t0, w) for sl, t0, w, i in all_runs]
+    out.nontrivial = len(runs) >= 3 and len({w for _, _, w in runs}) >= 2
+    out.cls("broker-" + case["broker"], f"workers-{case['workers']}", "restart" if case["restart"] else "no-restart",
+            "several-workers-ran" if len({w for _, _, w in runs}) >= 2 else "one-worker-ran")
+
+
+def _judge_job(out: Outcome, case: dict, jid: str, runs: list, places: list, t_enq: float, p: float) -> None:
     if len(places) != 1 or places[0].kind == "dead":
-        out.v("successor-count", f"after {len(runs)} runs the recurring job must exist exactly once, found {[pl.short() for pl in places]}",
+        out.v("successor-count", f"after {len(runs)} runs the recurring job {jid} must exist exactly once, found {[pl.short() for pl in places]}",
               broker=case["broker"])
     seen: dict = {}
     prev = None
@@ -114,7 +129,7 @@ async def _fleet(loop, case, out: Outcome):
         if t0 < slot - 0.001:
             out.v("run-before-slot", f"run on {w} started at {t0:.6f}, before its slot {slot:.6f}", broker=case["broker"])
         if slot in seen:
-            out.v("slot-ran-twice", f"slot {slot:.6f} was run by {seen[slot][1]} at {seen[slot][0]:.6f} and again by {w} at {t0:.6f} "
+            out.v("slot-ran-twice", f"{jid}: slot {slot:.6f} was run by {seen[slot][1]} at {seen[slot][0]:.6f} and again by {w} at {t0:.6f} "
                   f"(period {p}, stops {case['stops']})", broker=case["broker"])
         elif prev is not None and slot < prev + p - 1e-6:
             out.v("cadence", f"slot {slot:.6f} follows slot {prev:.6f} by less than one period ({p})", broker=case["broker"])
@@ -125,14 +140,11 @@ async def _fleet(loop, case, out: Outcome):
     serving_until = all_stopped_by if all_stopped_by is not None else case["horizon"]
     # (a loose progress bound, mainly against a vacuous run: an iteration that completes after the next slot skips it)
     pickup = {"mem": 1.15, "redis": 1.65, "amqp": 0.15}[case["broker"]]
-    cycle = p * (int((case["dur"] + pickup) / p) + 1)
+    cycle = p * (int((case["dur"] * (1 + case.get("twins", 0)) + pickup) / p) + 1)
     expected_min = int((serving_until - t_enq) / cycle) - 3 - case["workers"]
     if len(runs) < expected_min:
-        out.v("iterations-missing", f"only {len(runs)} iterations ran in {serving_until - t_enq:.1f}s of service (period {p}, "
+        out.v("iterations-missing", f"{jid}: only {len(runs)} iterations ran in {serving_until - t_enq:.1f}s of service (period {p}, "
               f"duration {case['dur']}); at least {expected_min} expected", broker=case["broker"])
-    out.nontrivial = len(runs) >= 3 and len({w for _, _, w in runs}) >= 2
-    out.cls("broker-" + case["broker"], f"workers-{case['workers']}", "restart" if case["restart"] else "no-restart",
-            "several-workers-ran" if len({w for _, _, w in runs}) >= 2 else "one-worker-ran")
 
 
 def run_fleet(case: dict) -> Outcome:
